@@ -181,7 +181,11 @@ def build_replay(tag="x"):
 
 
 def run_replay(binp, args, timeout=3600):
-    rc, out, err, wall = sh([binp] + args, timeout=timeout)
+    try:
+        rc, out, err, wall = sh([binp] + args, timeout=timeout)
+    except subprocess.TimeoutExpired:
+        # a changed Ord / loop can make the real code run forever; that is reported as "no answer", never as a crash of the check
+        return {"error": "did not terminate within %d s (on the unchanged tree this run takes seconds)" % timeout, "timeout": True}, float(timeout)
     try:
         return json.loads(out), wall
     except Exception:
@@ -219,7 +223,7 @@ def main():
     prop = json.load(open(os.path.join(ROOT, "props", pid + ".json")))
     ev_path = os.path.join(ROOT, "evidence", pid + ".json")
     os.makedirs(os.path.dirname(ev_path), exist_ok=True)
-    wd = os.path.join(BUILD, "unit", pid)
+    wd = os.path.join(BUILD, "unit", pid + os.environ.get("VERIF_WD_SUFFIX", ""))   # suffix: developer aid (parallel mutant runs of one property)
     shutil.rmtree(wd, ignore_errors=True)
     os.makedirs(wd, exist_ok=True)
     replay_dir = os.path.join(ROOT, "replays", "out")
@@ -403,13 +407,13 @@ def main():
     standin_res = []
     search_res = None
     if wants_replay and os.path.isdir(os.path.join(ROOT, "replay")):
-        binp, log, bw = build_replay(pid)
+        binp, log, bw = build_replay(pid + os.environ.get("VERIF_WD_SUFFIX", ""))
         replay_res["build_wall_s"] = round(bw, 1)
         if not binp:
             undecided.append("replay crate does not build against the current tree: " + log[-600:])
         else:
             for s in prop.get("standins", []):
-                r, w = run_replay(binp, ["standin", s, tier])
+                r, w = run_replay(binp, ["standin", s, tier], timeout=300 if tier == "quick" else 1800)
                 r["wall_s"] = round(w, 2)
                 r["label"] = "bounded (exercises an assumed / not-under-contract item on the real crate within the stated bound; not counted as proved)"
                 standin_res.append(r)
@@ -419,7 +423,7 @@ def main():
                     new_violation_from_replay.append({"obligation": "bounded stand-in " + s + " (assumed contract of " + r.get("for", "?") + ")",
                                                       "counterexample": r.get("first_failure"), "messages": []})
             for f in findings:
-                r, w = run_replay(binp, ["finding", f["id"]])
+                r, w = run_replay(binp, ["finding", f["id"]], timeout=600)
                 f["result"] = r
                 if r.get("error"):
                     undecided.append("finding replay %s: %s" % (f["id"], r["error"]))
